@@ -139,6 +139,8 @@ func loadNamedUnit(name string) (*Unit, []string, error) {
 	switch name {
 	case "set":
 		return loadSetUnit()
+	case "runtime":
+		return loadRuntimeUnit()
 	}
 	return nil, nil, fmt.Errorf("unknown unit %s", name)
 }
@@ -159,5 +161,26 @@ func loadSetUnit() (*Unit, []string, error) {
 			keys = append(keys, k) // lemma functions (verif-only Go code) are verified like the others
 		}
 	}
+	return u, keys, nil
+}
+
+// loadRuntimeUnit: the parser runtime (template text) instantiated on the carrier grammar.
+func loadRuntimeUnit() (*Unit, []string, error) {
+	gp, err := Generate("runtime", verifDir+"/carriers/carrier.peg", nil)
+	if err != nil {
+		return nil, nil, err
+	}
+	u := gp.Unit
+	u.NoSplit = map[string]bool{"inputOK": true}
+	u.SkipSMT = false
+	u.TrustedExt["slices.Sort"] = &ExtSpec{Key: "slices.Sort", Params: []string{"x"}, Contract: mkContract("slices.Sort",
+		"requires soff(x) == 0",
+		"ensures forall(i, j, imp(0 <= i && i <= j && j < len(x), x[i] <= x[j]))",
+		"ensures forall(i, imp(0 <= i && i < len(x), 0 <= sortPerm(sbase(x), i) && sortPerm(sbase(x), i) < len(x) && x[sortPerm(sbase(x), i)] == old(x[i])))",
+		"ensures forall(i, imp(0 <= i && i < len(x), 0 <= sortInv(sbase(x), i) && sortInv(sbase(x), i) < len(x) && x[i] == old(x[sortInv(sbase(x), i)])))",
+		"modifies Elems.Int at b where b == sbase(x)")}
+	u.TrustedExt["fmt.Sprintf"] = &ExtSpec{Key: "fmt.Sprintf", Params: []string{"format"}}
+	u.TrustedExt["strconv.Quote"] = &ExtSpec{Key: "strconv.Quote", Params: []string{"s"}}
+	keys := []string{"tokens.Add", "tokens.Trim", "Init.add", "Init.matchDot", "translatePositions"}
 	return u, keys, nil
 }
